@@ -453,6 +453,28 @@ def run(case, ctx):
             out.violate('same-verdicts', '%s:%s' % (name, '+'.join(kinds)),
                         'verdicts with %s differ from %s: %r'
                         % (name, base[0], diffs[:5]))
+    # ... and they are the verdicts of the set that was written: date bounds
+    # (the values a loader has to convert) judged from the written values
+    if base is not None and case['mode'] == 'hand':
+        colv = {c['name']: (c['kind'], F.py_values(c))
+                for c in case['frame']['cols']}
+        for (fname, fc) in cons['fields'].items():
+            col = colv.get(fname)
+            if (col is None or fc.get('type') != 'date'
+                    or R.actual_type(*col) != 'date'):
+                continue
+            for k in ('min', 'max'):
+                got = base[1].get(fname, {}).get(k)
+                if fc.get(k) is None or got is None:
+                    continue
+                want = R.verdict(k, fc[k], col, 0.0, 'sloppy')
+                out.label('date-bound-judged-from-written-value')
+                if bool(got) != want:
+                    out.violate('same-verdicts', 'written-meaning:' + k,
+                                'field %r %s=%r: verdict %r with every '
+                                'input form, the written bound and the data '
+                                '%r give %r' % (fname, k, fc[k], got,
+                                                col[1][:6], want))
     # unknown kinds and #-keys
     c2 = copy.deepcopy(cons)
     for fc in c2['fields'].values():
